@@ -42,7 +42,7 @@ def run(ctx, replay):
     traces, sums = vlib.drive_cases(ctx, "c06", cases, nchunks=16)
     n, bad = vlib.judge(ctx, "Trace_SignSteps", traces)
     vlib.report_bad(ctx, bad, sig, desc,
-                    lambda ev: {"cases": [{"tree": ev["c"]["tree"], "penv": ev["c"]["penv"], "alg": ev["c"]["alg"]}], "event": {k: ev[k] for k in ev if k != "c"}},
+                    lambda ev: {"cases": [{"tree": ev["c"]["tree"], "penv": ev["c"]["penv"], "alg": ev["c"]["alg"], "rot": ev["c"]["rot"]}], "event": {k: ev[k] for k in ev if k != "c"}},
                     vlib.confirm_by_cases(ctx, "c06", "Trace_SignSteps"))
     cov = {
         "states": sum(r.distinct for r in mruns), "transitions": sum(r.generated for r in mruns),
